@@ -16,25 +16,26 @@ import (
 
 	"go.nanomsg.org/mangos/v3"
 	"go.nanomsg.org/mangos/v3/internal/core"
-	"go.nanomsg.org/mangos/v3/transport/ws"
 	itest "go.nanomsg.org/mangos/v3/internal/test"
+	"go.nanomsg.org/mangos/v3/transport/ws"
 )
 
 // ---------------------------------------------------------------------------------------
 // tunables: watchdogs and polling bounds only, never part of a verdict on their own
 
 const (
-	callWatchdog   = 20 * time.Second // a blocking call that does not return within this is "hung"
-	setupWatchdog  = 20 * time.Second
-	censusBound    = 10 * time.Second // goroutines / pipe ids must be gone within this
-	censusStep     = 20 * time.Millisecond
-	watchWindow    = 300 * time.Millisecond // probe listeners watch for late dial attempts
-	lateBound      = 2 * time.Second
-	eofBound       = 5 * time.Second
-	reconnectTime  = 10 * time.Millisecond
-	bigBody        = 64 << 10
-	workerWatchdog = 300 * time.Second
-	laterRepeat    = 8
+	callWatchdog      = 20 * time.Second // a blocking call that does not return within this is "hung"
+	setupWatchdog     = 20 * time.Second
+	censusBound       = 10 * time.Second // goroutines / pipe ids must be gone within this
+	censusStep        = 20 * time.Millisecond
+	watchWindow       = 300 * time.Millisecond // probe listeners watch for late dial attempts
+	lateBound         = 2 * time.Second
+	eofBound          = 5 * time.Second
+	handlerAttachWait = 3 * time.Second // j-handler upgraded-then-listen: bounded wait for the attach after Listen (stimulus, not an oracle)
+	reconnectTime     = 10 * time.Millisecond
+	bigBody           = 64 << 10
+	workerWatchdog    = 300 * time.Second
+	laterRepeat       = 8
 )
 
 // ---------------------------------------------------------------------------------------
@@ -298,9 +299,9 @@ type wcase struct {
 
 	hung map[string]bool // later calls that did not return
 
-	release func() // i-pending: lets the parked Attaching hook return
+	release      func() // i-pending: lets the parked Attaching hook return
 	afterSubject func() // k-txblock on inproc: evaluated after the subject's Close, before the peer is closed
-	after   func() // j-handler: the application shuts its own HTTP server down once the sockets are closed
+	after        func() // j-handler: the application shuts its own HTTP server down once the sockets are closed
 }
 
 // sitHandlerMode: the subject's ws / wss listener runs no server of its own: its handler is mounted
@@ -332,6 +333,10 @@ func (w *wcase) sitHandlerMode() {
 	srv := &http.Server{Handler: mux}
 	go func() { _ = srv.Serve(ln) }()
 	w.after = func() { _ = srv.Close() }
+	if strings.HasPrefix(w.spec.Var, "upgraded-") {
+		w.sitHandlerUpgradedFirst(l, addr, ln.Addr().String())
+		return
+	}
 	if err = l.Listen(); err != nil {
 		w.setupFail("Listen (handler mode): %v", err)
 	}
@@ -344,6 +349,56 @@ func (w *wcase) sitHandlerMode() {
 	} else {
 		w.res.InProgress = true
 	}
+}
+
+// sitHandlerUpgradedFirst: handler mode, and the application's HTTP server has upgraded peers BEFORE
+// the application calls Listen() on the mangos listener (the handler is live from the moment it is
+// mounted).  Two raw peers of the harness complete the (TLS and) WebSocket upgrade - each has read the
+// 101 response, so the server side of the upgrade is done - and stay connected without sending.
+//
+//	upgraded-then-listen  Listen() is called afterwards; the peers are given to the socket (a PAIR
+//	                      socket keeps one and closes the other); then everything is closed
+//	upgraded-no-listen    Listen() is never called (start-up aborted); everything is closed
+//
+// Oracle: the usual census (no goroutine in mangos / gorilla / net/http, no pipe id, descriptors at
+// baseline) and every raw peer sees the end of its connection.  The wait for the attach after Listen()
+// is bounded (handlerAttachWait) and is a stimulus only: Close is judged whether or not the peers were
+// attached by then.
+func (w *wcase) sitHandlerUpgradedFirst(l mangos.Listener, addr, hostport string) {
+	info := w.subj.s.Info()
+	w.socks = []*sock{w.subj}
+	_ = w.peer.s.Close()
+	const nPeers = 2
+	for i := 0; i < nPeers; i++ {
+		c, err := net.DialTimeout("tcp", hostport, setupWatchdog)
+		if err != nil {
+			w.setupFail("raw dial %s: %v", hostport, err)
+		}
+		w.rawMu.Lock()
+		w.rawConns = append(w.rawConns, c)
+		w.rawMu.Unlock()
+		if err := w.rawHandshake(c, true, addr, info); err != nil {
+			w.setupFail("raw peer %d: %v", i, err)
+		}
+		atomic.AddInt64(&opCount, 1)
+	}
+	// every peer has its 101 response: the server ran the upgrade; its handler goroutines are (or are
+	// about to be) parked in the listener's handler
+	if !poll(setupWatchdog, 2*time.Millisecond, func() bool { return countGoroutines("transport/ws.(*listener).handler") >= nPeers }) {
+		w.setupFail("%d peers were upgraded but fewer goroutines are inside the listener's handler", nPeers)
+	}
+	if w.spec.Var == "upgraded-then-listen" {
+		atomic.AddInt64(&opCount, 1)
+		if err := l.Listen(); err != nil {
+			w.setupFail("Listen (handler mode, after the upgrades): %v", err)
+		}
+		if poll(handlerAttachWait, 2*time.Millisecond, func() bool { return w.subj.attached() >= 1 }) {
+			w.res.count("upgraded-peer-attached-after-listen")
+		} else {
+			w.res.count("upgraded-peer-not-attached-after-listen")
+		}
+	}
+	w.res.InProgress = true
 }
 
 type setupError struct{ msg string }
@@ -1040,7 +1095,7 @@ func (w *wcase) closeAndJudge() {
 	w.rawMu.Lock()
 	raws := append([]net.Conn{}, w.rawConns...)
 	w.rawMu.Unlock()
-	if (w.spec.Sit == "f-stall" || w.spec.Sit == "h-dialstall" || w.spec.Sit == "k-txblock") && !leaked {
+	if (w.spec.Sit == "f-stall" || w.spec.Sit == "h-dialstall" || w.spec.Sit == "k-txblock" || w.spec.Sit == "j-handler") && !leaked {
 		// (a goroutine that is still parked on the connection has been reported already;
 		// k-txblock: the raw peer first drains what the subject had written)
 		for _, c := range raws {
